@@ -183,6 +183,7 @@ fn mixin_call<'a>(start: Span, input: Span<'a>) -> PResult<'a, Item> {
     let (rest, ()) = opt_spacelike(rest)?;
     let (rest0, args) =
         terminated(opt(call_args), ignore_comments).parse(rest)?;
+    let args = args.map(|args| args.no_trailing_comma());
     let (rest, t) = alt((tag("using"), tag("{"), tag(""))).parse(rest0)?;
     let (end, body) = match t.fragment() {
         b"using" => {
